@@ -116,7 +116,9 @@ func (sm *ShardManager) cleanupRoutine(ls *loadedShard, backupFrequency, backupC
 			}
 		case <-timer.C:
 			sm.logger.Debug().Str("shardDir", shardDir).Msg("Unloading shard")
+			verifPause("cleanup:timer-fired", shardDir)
 			ls.mu.Lock()
+			verifPause("cleanup:locked", shardDir)
 			defer ls.mu.Unlock() // we commit to exiting the cleanup goroutine here
 			if ls.shard == nil {
 				sm.logger.Debug().Str("shardDir", shardDir).Msg("Shard already unloaded")
@@ -145,6 +147,7 @@ func (sm *ShardManager) cleanupRoutine(ls *loadedShard, backupFrequency, backupC
 			// is closed in case they are waiting on the lock
 			sm.logger.Debug().Str("shardDir", shardDir).Msg("Removing loaded shard")
 			ls.shard = nil
+			verifPause("cleanup:before-store-lock", shardDir)
 			sm.shardLock.Lock()
 			delete(sm.shardStore, shardDir)
 			sm.shardLock.Unlock()
@@ -204,7 +207,9 @@ func (sm *ShardManager) DeleteCollectionShards(collection models.Collection) ([]
 		shardDir := filepath.Join(collectionDir, shardDirEntry.Name())
 		// Is the shard already loaded?
 		if ls, ok := sm.shardStore[shardDir]; ok {
+			verifPause("delete:before-shard-lock", shardDir)
 			ls.mu.Lock()
+			verifPause("delete:shard-locked", shardDir)
 			if ls.shard != nil {
 				// The shard is loaded, we can't delete it before unloading it.
 				// Signal in a non-blocking fashion that the cleanup goroutine
